@@ -32,6 +32,7 @@ CONFIG = {
     'level_note': ('Trusted base: vmon/refsem.py Star (cross-checked with '
                    'refsem.ctl on every CTL-shaped case of the run), neutral '
                    'forms.'),
+    'internal_monitors': ['c03.fresh_atom'],
     'deciding': ['c03.modelcheck'],
     'shards': {'quick': 16, 'thorough': 16},
     'hashseeds': {'quick': 4, 'thorough': 8},
@@ -148,7 +149,8 @@ def attach():
     mcwrap.attach()
     c01.attach()
     c02.attach()
-    mon.attach_once('c03.internal', _attach_internal)
+    mon.attach_once('c03.internal',
+                    lambda: mon.safe_internal(_attach_internal))
     for j in (judge, inner_judge):
         if j not in mcwrap.judges:
             mcwrap.judges.append(j)
@@ -283,12 +285,8 @@ def finalize(reports, ctx):
                      if k in ('_get_a_new_atomic_proposition_for',
                               '_remove_state_subformulas',
                               '_checkQuantifiedFormula', 'CTLS.modelcheck')}}
-    ev = {}
-    for need in CONFIG['must_sig']:
-        if need.startswith('reach:'):
-            _, label, text = need.split(':', 2)
-            if probes.reached(merged, label, text):
-                ev[need] = 1
+    ev, waived = probes.reach_sigs(merged, CONFIG['must_sig'])
+    cov['reach_requirements_waived'] = waived
     return {'coverage': cov, 'sig_add': ev}
 
 
